@@ -325,8 +325,10 @@ Print Assumptions C03_sprog_embeds.
      - a container twin (same text around DecodeContainerChildren / ...SR; KCont of C03_decode_agree_canonical), or one whose SR
        decoder also returns sr.AccError(): named, c03_twin_accerr_explored = edts sinf stbl;
      - moov / moof: the reader path reads the body and runs the text of the SR decoder on it, KContBody with the extracted flag;
+     - a pure twin (neither decoder touches its reader, same text: emeb, vtte) or a raw-body pair (readBoxBody / ReadBytes(payloadLen)
+       + AccError into the same box: free, skip, cdat; the opaque leaf std_r / std_sr of C03_std_canon_leaf);
      - separately written and named: c03_separate_proved = trun senc mdat stsd mfhd tfdt (their pair theorems above) or
-       c03_separate_explored = audio sample entry, av1C avcC cdat dac3 dec3 dref emeb free/skip hvcC styp vttc vtte.
+       c03_separate_explored = audio sample entry, av1C avcC dac3 dec3 dref hvcC styp vttc.
    A reader-path decoder that is rewritten by hand leaves its class and breaks this theorem until it gets a pair model. *)
 Theorem C03_all_pairs_classified :
   forall k, In k keys_decoders ->
@@ -336,6 +338,7 @@ Theorem C03_all_pairs_classified :
                        \/ In (df_r f) c03_delegating_nonrelative_proved \/ In (df_r f) c03_delegating_nonrelative_explored
       | CContainerTwin => df_accerr f = false \/ In (df_r f) c03_twin_accerr_explored
       | CContainerBody => std_kind k = KContBody (df_accerr f)
+      | CPureTwin | CRawBody => std_kind k = KLeaf
       | CSeparate => In (df_r f) c03_separate_proved \/ In (df_r f) c03_separate_explored
       end.
 Proof. exact all_pairs_classified. Qed.
